@@ -7,6 +7,8 @@ package main
 
 import (
 	"bytes"
+	"crypto/sha256"
+	"encoding/hex"
 	"encoding/json"
 	"fmt"
 	"os"
@@ -32,6 +34,8 @@ type DCase struct {
 	Expect string            `json:"expect,omitempty"` // witness: the signature it must fail with
 	// NoExample: only the gen command (hostile stream: the example scaffolding does not depend on the mapping)
 	NoExample bool `json:"no_example,omitempty"`
+	// Dir: directory of the design inside the batch module (set by runBatch)
+	Dir string `json:"dir,omitempty"`
 }
 
 // Verdict is what happened to one design.
@@ -88,8 +92,8 @@ func writeBatchModule(dir, repo, stubs string) error {
 	return err
 }
 
-var diagRe = regexp.MustCompile(`^(?:\./)?(d\d+)/(\S+?\.go):(\d+):(?:(\d+):)? (.*)$`)
-var pkgRe = regexp.MustCompile(`^# tb/(d\d+)(/\S*)?`)
+var diagRe = regexp.MustCompile(`^(?:\./)?(d[0-9a-f]+)/(\S+?\.go):(\d+):(?:(\d+):)? (.*)$`)
+var pkgRe = regexp.MustCompile(`^# tb/(d[0-9a-f]+)(/\S*)?`)
 
 // worker mode: the harness re-executes itself to evaluate and generate the designs of one
 // shard, so that a generator that hangs or overflows the stack (goa keeps global state and a
@@ -128,7 +132,7 @@ func workerMain(casesFile, root string, shard, shards, from int, example bool) {
 			must(enc.Encode(workerLine{Idx: i, Verdict: &v}))
 			continue
 		}
-		v := generateOne(c.Design, filepath.Join(root, fmt.Sprintf("d%d", i)), example && !c.NoExample)
+		v := generateOne(c.Design, filepath.Join(root, c.Dir), example && !c.NoExample)
 		must(enc.Encode(workerLine{Idx: i, Verdict: &v}))
 	}
 }
@@ -136,7 +140,7 @@ func workerMain(casesFile, root string, shard, shards, from int, example bool) {
 // perDesignTimeout bounds Eval+gen+example of one design (normally well under a second).
 var perDesignTimeout = 90 * time.Second
 
-func runShard(casesFile, root string, shard, shards int, example bool, vs []Verdict, n int) {
+func runShard(casesFile, root string, shard, shards int, example bool, vs []Verdict, dirs []string) {
 	from := 0
 	for {
 		self, err := os.Executable()
@@ -188,7 +192,7 @@ func runShard(casesFile, root string, shard, shards int, example bool, vs []Verd
 			// died between designs: nothing to blame, stop the shard loudly
 			panic(fmt.Sprintf("design worker %d/%d failed outside a design: %v\n%s", shard, shards, werr, firstLines(stderr.String(), 20)))
 		}
-		os.RemoveAll(filepath.Join(root, fmt.Sprintf("d%d", cur)))
+		os.RemoveAll(filepath.Join(root, dirs[cur]))
 		if hung {
 			vs[cur] = Verdict{Stage: "gen-hang", Msg: fmt.Sprintf("evaluating / generating the design did not finish within %s", perDesignTimeout)}
 		} else {
@@ -202,6 +206,26 @@ func runShard(casesFile, root string, shard, shards int, example bool, vs []Verd
 	}
 }
 
+// dirNames: the directory of a design is named after its content, so that an unchanged design
+// keeps its import path from run to run (Go build cache) whatever else the streams contain.
+func dirNames(cases []DCase) []string {
+	out := make([]string, len(cases))
+	seen := map[string]int{}
+	for i, c := range cases {
+		h := sha256.Sum256([]byte(c.Design.JSON() + fmt.Sprint(c.NoExample)))
+		n := "d" + hex.EncodeToString(h[:6])
+		seen[n]++
+		if seen[n] > 1 {
+			n += fmt.Sprintf("%02x", seen[n])
+		}
+		out[i] = n
+	}
+	return out
+}
+
+// phaseSeconds accumulates where the time of the design part goes (evidence).
+var phaseSeconds = map[string]float64{}
+
 // runBatch evaluates, generates and builds every case; verdicts are index-aligned.
 func runBatch(cases []DCase, root, repo, stubs string, example bool) ([]Verdict, error) {
 	os.RemoveAll(root)
@@ -209,6 +233,11 @@ func runBatch(cases []DCase, root, repo, stubs string, example bool) ([]Verdict,
 		return nil, err
 	}
 	vs := make([]Verdict, len(cases))
+	dirs := dirNames(cases)
+	cases = append([]DCase{}, cases...)
+	for i := range cases {
+		cases[i].Dir = dirs[i]
+	}
 	casesFile := filepath.Join(root, "cases.json")
 	cb, err := json.Marshal(cases)
 	if err != nil {
@@ -217,9 +246,9 @@ func runBatch(cases []DCase, root, repo, stubs string, example bool) ([]Verdict,
 	if err := os.WriteFile(casesFile, cb, 0o644); err != nil {
 		return nil, err
 	}
-	shards := runtime.NumCPU() / 2
-	if shards > 8 {
-		shards = 8
+	shards := runtime.NumCPU() - 2
+	if shards > 14 {
+		shards = 14
 	}
 	if shards < 1 {
 		shards = 1
@@ -227,18 +256,23 @@ func runBatch(cases []DCase, root, repo, stubs string, example bool) ([]Verdict,
 	if len(cases) < shards {
 		shards = len(cases)
 	}
+	tGen := time.Now()
 	var wg sync.WaitGroup
 	for k := 0; k < shards; k++ {
 		wg.Add(1)
 		go func(k int) {
 			defer wg.Done()
-			runShard(casesFile, root, k, shards, example, vs, len(cases))
+			runShard(casesFile, root, k, shards, example, vs, dirs)
 		}(k)
 	}
 	wg.Wait()
 	if evalOnly {
+		phaseSeconds["eval_only"] += time.Since(tGen).Seconds()
 		return vs, nil
 	}
+	phaseSeconds["generate"] += time.Since(tGen).Seconds()
+	tComp := time.Now()
+	defer func() { phaseSeconds["compile"] += time.Since(tComp).Seconds() }()
 	// `go list -export` compiles every package (type check + code generation) without linking the
 	// example binaries; diagnostics have the format of `go build`
 	cmd := exec.Command("go", "list", "-export", "-gcflags=-e", "-f", "{{.ImportPath}}", "./...")
@@ -275,7 +309,7 @@ func runBatch(cases []DCase, root, repo, stubs string, example bool) ([]Verdict,
 		unattributed = append(unattributed, l)
 	}
 	for i := range cases {
-		d := fmt.Sprintf("d%d", i)
+		d := dirs[i]
 		if es, ok := byDir[d]; ok {
 			if vs[i].Stage == "ok" {
 				vs[i].Stage = "build-error"
